@@ -55,12 +55,19 @@ def execute(sb, repos, stores, plans, chooser=None, on_fs_event=None, switch=Non
                 full2[f"{url}/{k}"] = v
         stores_list.append(full2)
     handler = runner.StoreHandler(stores_list, plan, switch_after=switch["after"] if switch else None)
-    results = {}
-    install_result_probe(results)
+    from . import observe
+    obs = observe.Obs()
+    obs.install()
+
+    def pre(apt, config):
+        if pre_run:
+            pre_run(apt, config)
+
     try:
-        res = runner.run_mirror(sb, handler, chooser, on_fs_event=on_fs_event, budget=budget, pre_run=pre_run)
+        res = runner.run_mirror(sb, handler, chooser, on_fs_event=on_fs_event, budget=budget, pre_run=pre, obs=obs)
     finally:
-        uninstall_result_probe()
-    res.repo_results = results
+        obs.uninstall()
+    res.obs = obs
+    res.repo_results = {u: r["result"] for u, r in obs.repos.items()}
     res.handler = handler
     return res
